@@ -335,7 +335,7 @@ class C07Factories(Harness):
         yield "integer-N1", dict(kind="integer", N=1)
         for how in ("int", "edges", "pairs", "name_numpy", "name_fixed_width", "name_integer", "object", "callable", "unknown", "none", "sqrt"):
             yield f"dispatch-{how}", dict(kind="dispatch", N=2, how=how)
-        for how in ("list_per_axis", "scalar_for_all", "wrong_len", "range_pair", "dim_mismatch"):
+        for how in ("list_per_axis", "scalar_for_all", "wrong_len", "range_pair", "dim_mismatch", "kw_list", "kw_scalar", "kw_wrong_len", "range_per_axis", "columns_distinct"):
             yield f"dispatch-nd-{how}", dict(kind="dispatch_nd", N=2, how=how)
 
     def declare(self, cx, p):
@@ -411,6 +411,19 @@ class C07Factories(Harness):
                 r = E.attempt(C.calculate_nd_bins, arr2, [2, 2, 2])
             elif how == "range_pair":
                 r = E.attempt(C.calculate_nd_bins, arr2, 2, range=(-4.0, 4.0))
+            elif how in ("kw_list", "kw_scalar", "kw_wrong_len", "range_per_axis", "columns_distinct"):
+                # distinct columns: column 1 is column 0 shifted by 100, so a column / argument mix-up shows in the covered range
+                arr3 = np.asarray([[x["v"][0], x["v"][1] + 100.0], [x["v"][1], x["v"][0] + 100.0]], dtype=float)
+                if how == "kw_list":
+                    r = E.attempt(C.calculate_nd_bins, arr3, "fixed_width", bin_width=[1.0, 2.0])
+                elif how == "kw_scalar":
+                    r = E.attempt(C.calculate_nd_bins, arr3, "fixed_width", bin_width=2.0)
+                elif how == "kw_wrong_len":
+                    r = E.attempt(C.calculate_nd_bins, arr3, "fixed_width", bin_width=[1.0, 2.0, 4.0])
+                elif how == "range_per_axis":
+                    r = E.attempt(C.calculate_nd_bins, arr3, 2, range=[(-64.0, 64.0), (0.0, 256.0)])
+                else:
+                    r = E.attempt(C.calculate_nd_bins, arr3, 2)
             else:
                 r = E.attempt(C.calculate_nd_bins, arr2, 2, dim=3)
             if isinstance(r, Raised):
@@ -519,7 +532,7 @@ class C07Factories(Harness):
                 yield "covers_data", covers(res["bins"], mn, mx, closed_right=how not in ("name_fixed_width", "name_integer"))
             return
         how = p["how"]
-        if how in ("wrong_len", "dim_mismatch"):
+        if how in ("wrong_len", "dim_mismatch", "kw_wrong_len"):
             yield "refused", isinstance(res, dict) and "raised" in res and res["raised"].name == "ValueError"
             return
         yield "no_exception", isinstance(res, list)
@@ -531,8 +544,20 @@ class C07Factories(Harness):
         elif how == "scalar_for_all":
             yield "scalar_fans_out", all(r["cls"] == "NumpyBinning" and len(r["bins"]) == 2 for r in res)
             yield "covers_columns", z3.And([covers(r["bins"], mn, mx) for r in res])
-        else:
+        elif how == "range_pair":
             yield "range_applies_to_all", z3.And([z3.And(cx.t(r["bins"][0][0]) == -4, cx.t(r["bins"][-1][1]) == 4) for r in res])
+        elif how == "range_per_axis":
+            yield "range_per_axis", z3.And(cx.t(res[0]["bins"][0][0]) == -64, cx.t(res[0]["bins"][-1][1]) == 64, cx.t(res[1]["bins"][0][0]) == 0, cx.t(res[1]["bins"][-1][1]) == 256,
+                                          z3.BoolVal(len(res[0]["bins"]) == 2 and len(res[1]["bins"]) == 2))
+        else:
+            lo, hi = [mn, mn + 100], [mx, mx + 100]
+            if how in ("kw_list", "kw_scalar"):
+                widths = [1, 2] if how == "kw_list" else [2, 2]
+                yield "fixed_width_per_axis", z3.And([z3.And([cx.t(b[1]) - cx.t(b[0]) == widths[a] for b in res[a]["bins"]]) for a in range(2)] + [z3.BoolVal(all(r["cls"] == "FixedWidthBinning" for r in res))])
+                yield "axis_covers_its_own_column", z3.And([z3.And(cx.t(res[a]["bins"][0][0]) <= lo[a], hi[a] < cx.t(res[a]["bins"][-1][1]),
+                                                                   cx.t(res[a]["bins"][0][0]) > lo[a] - widths[a], cx.t(res[a]["bins"][-1][1]) <= hi[a] + widths[a]) for a in range(2)])
+            else:
+                yield "axis_covers_its_own_column", z3.And([z3.And(cx.t(res[a]["bins"][0][0]) == lo[a], cx.t(res[a]["bins"][-1][1]) == hi[a]) for a in range(2)])
 
 
 def _no_ties(cx, raw):
@@ -559,6 +584,9 @@ class C07Pretty(Harness):
     def instances(self, tier):
         yield "pretty-width", dict(kind="width")
         yield "pretty-binning", dict(kind="binning")
+        # explicit range: data inside a part of it / no data at all / min_bin_width, max_bin_width clamps
+        yield "pretty-binning-range-data", dict(kind="binning", range="data")
+        yield "pretty-binning-range-nodata", dict(kind="binning", range="nodata")
         yield "exponential-data", dict(kind="exponential", range=False)
         yield "exponential-range", dict(kind="exponential", range=True)
         for m in ("sqrt", "sturges", "rice", "default"):
@@ -597,7 +625,13 @@ class C07Pretty(Harness):
             return {"res": {"raised": r}} if isinstance(r, Raised) else {"res": _info(E, r)}
         if p["kind"] == "binning":
             data = np.asarray([x["lo"], x["hi"]], dtype=float)
-            r = E.attempt(B.pretty_binning, data, 4)
+            if p.get("range") == "data":
+                mid = (x["lo"] + x["hi"]) / 2.0
+                r = E.attempt(B.pretty_binning, np.asarray([mid, mid], dtype=float), 4, range=(x["lo"], x["hi"]))
+            elif p.get("range") == "nodata":
+                r = E.attempt(B.pretty_binning, None, 4, range=(x["lo"], x["hi"]))
+            else:
+                r = E.attempt(B.pretty_binning, data, 4)
             return {"res": {"raised": r}} if isinstance(r, Raised) else {"res": _info(E, r)}
 
         class _Sized:
@@ -647,12 +681,19 @@ class C07Pretty(Harness):
             raw = (hi - lo) / 4
             bins = res["bins"]
             M = len(bins)
+            yield "has_bins", M > 0 and res["grid"][2] is not None
+            if M == 0 or res["grid"][2] is None:
+                return
             w = cx.t(res["grid"][0])
             tm = cx.t(res["grid"][2])
             yield "pretty_set", z3.Or([w == c for c in cands])
             yield "nearest_in_log_scale", z3.And([dist_le(w, c, raw) for c in cands])
             yield "equal_width_aligned", z3.And([z3.And(cx.t(bins[j][0]) == (tm + j) * w, cx.t(bins[j][1]) == (tm + j + 1) * w) for j in range(M)])
-            yield "covers_data", z3.And(cx.t(bins[0][0]) <= lo, hi < cx.t(bins[-1][1]), cx.t(bins[0][1]) > lo, cx.t(bins[-1][0]) <= hi)
+            if p.get("range"):
+                # an explicit range is covered as a closed interval (its end may be the last edge), with no superfluous bin
+                yield "covers_range", z3.And(cx.t(bins[0][0]) <= lo, hi <= cx.t(bins[-1][1]), cx.t(bins[0][1]) > lo, cx.t(bins[-1][0]) < hi) if M else False
+            else:
+                yield "covers_data", z3.And(cx.t(bins[0][0]) <= lo, hi < cx.t(bins[-1][1]), cx.t(bins[0][1]) > lo, cx.t(bins[-1][0]) <= hi)
             return
         n = cx.t(x["n"])
         r = cx.t(res)
